@@ -166,6 +166,18 @@ CHECKS = {
             "absent.", "6/C14"),
 }
 
+CHECKS["C18"] = (True, "exploration",
+    "enumeration of document-stream pairs x modes x policies; differential "
+    "against a fresh pairwise fold (no shared objects) with a count/order "
+    "oracle and a per-case termination watchdog",
+    "Left/right streams of 1-3 documents from a 13-document pool (incl. an "
+    "empty document) under condense_all / merge_across / matrix_merge and 5 "
+    "policy mixes are pushed through get_doc_mergers()+merge_docs(); the "
+    "number, order and content of outputs must equal a reference that "
+    "re-loads every document from text for every pairwise step; failed "
+    "steps must surface as a non-zero state; each case must terminate.",
+    TRUST + "Pairwise merge correctness is C05's.", "6/C18")
+
 ALL = ["C%02d" % i for i in range(1, 20)]
 
 
